@@ -244,7 +244,7 @@ def st_cases():
 
 def plan(tier, seed):
     if tier == "quick":
-        return [{"kind": "tables", "examples": 20, "seed": seed * 1000 + k} for k in range(16)]
+        return [{"kind": "tables", "examples": 50, "seed": seed * 1000 + k} for k in range(16)]
     return [{"kind": "tables", "examples": 650, "seed": seed * 1000 + k} for k in range(16)]
 
 
